@@ -4,6 +4,7 @@
 
 pub mod cksum;
 pub mod ip;
+pub mod mini;
 pub mod tcp;
 
 pub type R<T> = Result<T, String>;
